@@ -6,6 +6,7 @@ package main
 import (
 	"fmt"
 	"go/types"
+	"strings"
 
 	"golang.org/x/tools/go/ssa"
 )
@@ -381,8 +382,11 @@ func (vc *VC) evalDesignator(sc *Scope, d Expr) (out []modLoc, ok bool) {
 
 // checkFrame emits the frame obligation for a write to heap[idx].
 func (vc *VC) checkFrame(st *State, heap string, sort Sort, idx Term, in ssa.Instruction) {
-	if vc.allowAll || vc.entry == nil {
+	if vc.entry == nil || (vc.allowAll && !vc.ownFresh()) {
 		return
+	}
+	if vc.allowAll && strings.HasPrefix(heap, "G_") && heap != "G_sync.Once.fired" {
+		return // ghost bookkeeping
 	}
 	var alts []Term
 	if arrayKeySort(sort) == SInt {
@@ -403,6 +407,9 @@ func (vc *VC) checkFrame(st *State, heap string, sort Sort, idx Term, in ssa.Ins
 	}
 	vc.oblige(st, "frame", anchor+":"+heap, Or(alts...), vc.frameProps(), "write outside the declared frame (modifies) to "+heap, pos)
 }
+
+// ownFresh: the contract says `modifies *` for what callees do, but the function's own writes must hit fresh memory.
+func (vc *VC) ownFresh() bool { return vc.c != nil && vc.c.NoShared }
 
 func (vc *VC) frameProps() []string {
 	if vc.c == nil {
